@@ -12,6 +12,7 @@ import (
 	"strings"
 	"sync"
 	"sync/atomic"
+	"time"
 
 	dbm "github.com/tendermint/tm-db"
 
@@ -19,6 +20,7 @@ import (
 	"github.com/tendermint/tendermint/libs/log"
 	"github.com/tendermint/tendermint/libs/pubsub"
 	"github.com/tendermint/tendermint/libs/pubsub/query"
+	"github.com/tendermint/tendermint/state/indexer"
 	blockidx "github.com/tendermint/tendermint/state/indexer/block/kv"
 	"github.com/tendermint/tendermint/state/txindex"
 	txkv "github.com/tendermint/tendermint/state/txindex/kv"
@@ -318,6 +320,110 @@ type world struct {
 	handles map[string]*handle
 	txi     *txkv.TxIndex
 	bi      *blockidx.BlockerIndexer
+	svc     *svcWorld
+}
+
+// ---------- the real IndexerService on a real EventBus ----------
+
+const sentinelHeight = -1 // a header the wrappers swallow: reaching it means the previous block is fully processed
+
+type svcWorld struct {
+	bus      *types.EventBus
+	is       *txindex.IndexerService
+	rejected int64 // block-index failures seen by the wrapper
+	sentinel int32
+	drained  chan struct{}
+	stalled  bool
+}
+
+type blockWrap struct {
+	inner indexer.BlockIndexer
+	s     *svcWorld
+}
+
+func (b blockWrap) Has(h int64) (bool, error) { return b.inner.Has(h) }
+func (b blockWrap) Search(ctx context.Context, q *query.Query) ([]int64, error) {
+	return b.inner.Search(ctx, q)
+}
+func (b blockWrap) Index(bh types.EventDataNewBlockHeader) error {
+	if bh.Header.Height == sentinelHeight {
+		atomic.StoreInt32(&b.s.sentinel, 1)
+		b.s.drained <- struct{}{}
+		return nil
+	}
+	err := b.inner.Index(bh)
+	if err != nil {
+		atomic.AddInt64(&b.s.rejected, 1)
+	}
+	return err
+}
+
+type txWrap struct {
+	inner txindex.TxIndexer
+	s     *svcWorld
+}
+
+func (t txWrap) Index(r *abci.TxResult) error         { return t.inner.Index(r) }
+func (t txWrap) Get(h []byte) (*abci.TxResult, error) { return t.inner.Get(h) }
+func (t txWrap) Search(ctx context.Context, q *query.Query) ([]*abci.TxResult, error) {
+	return t.inner.Search(ctx, q)
+}
+func (t txWrap) AddBatch(b *txindex.Batch) error {
+	if atomic.CompareAndSwapInt32(&t.s.sentinel, 1, 0) {
+		return nil // the sentinel header's empty batch: no database access
+	}
+	return t.inner.AddBatch(b)
+}
+
+func (w *world) service() *svcWorld {
+	if w.svc == nil {
+		if w.txi == nil {
+			w.txi = txkv.NewTxIndex(dbm.NewMemDB())
+		}
+		if w.bi == nil {
+			w.bi = blockidx.New(dbm.NewMemDB())
+		}
+		s := &svcWorld{drained: make(chan struct{}, 1)}
+		s.bus = types.NewEventBus()
+		if err := s.bus.Start(); err != nil {
+			panic(err)
+		}
+		// terminateOnError=false is the node's default: the service survives an indexing error
+		s.is = txindex.NewIndexerService(txWrap{w.txi, s}, blockWrap{w.bi, s}, s.bus, false)
+		if err := s.is.Start(); err != nil {
+			panic(err)
+		}
+		w.svc = s
+	}
+	return w.svc
+}
+
+// commitBlock publishes what the consensus state publishes for a committed block (header, then the
+// txs in order) and waits until the service has finished with it.
+func (s *svcWorld) commitBlock(h int64, begin, end []abci.Event, items []txItem) string {
+	if s.stalled {
+		return "svc-stalled"
+	}
+	before := atomic.LoadInt64(&s.rejected)
+	go func() {
+		_ = s.bus.PublishEventNewBlockHeader(types.EventDataNewBlockHeader{Header: types.Header{Height: h}, NumTxs: int64(len(items)),
+			ResultBeginBlock: abci.ResponseBeginBlock{Events: begin}, ResultEndBlock: abci.ResponseEndBlock{Events: end}})
+		for i, it := range items {
+			_ = s.bus.PublishEventTx(types.EventDataTx{TxResult: abci.TxResult{Height: h, Index: uint32(i), Tx: it.Tx,
+				Result: abci.ResponseDeliverTx{Events: it.Events}}})
+		}
+		_ = s.bus.PublishEventNewBlockHeader(types.EventDataNewBlockHeader{Header: types.Header{Height: sentinelHeight}})
+	}()
+	select {
+	case <-s.drained:
+	case <-time.After(20 * time.Second):
+		s.stalled = true
+		return "svc-stalled"
+	}
+	if atomic.LoadInt64(&s.rejected) != before {
+		return "ok block-rejected"
+	}
+	return "ok"
 }
 
 func (w *world) server() *pubsub.Server {
@@ -340,6 +446,10 @@ func (w *world) barrier() {
 }
 
 func (w *world) close() {
+	if w.svc != nil && !w.svc.stalled {
+		_ = w.svc.is.Stop()
+		_ = w.svc.bus.Stop()
+	}
 	if w.srv != nil {
 		_ = w.srv.Stop()
 		for _, h := range w.handles {
@@ -557,6 +667,9 @@ func execCase(c core.Case) []string {
 				}
 				return "res " + strings.Join(l, ",")
 			}())
+		case "svcblock":
+			h, _ := strconv.ParseInt(m["height"], 10, 64)
+			out = append(out, w.service().commitBlock(h, decTxEvents(m["begin"]), decTxEvents(m["end"]), decTxs(m["txs"])))
 		case "bindex":
 			if w.bi == nil {
 				w.bi = blockidx.New(dbm.NewMemDB())
@@ -635,12 +748,12 @@ func main() {
 			}
 			return false
 		},
-		Rule: "four generated streams over small alphabets (so equal keys/values/queries collide): " +
+		Rule: "five generated streams over small alphabets (so equal keys/values/queries collide): " +
 			"pubsub (1-4 clients, query pool of 2-5 queries drawn from the condition grammar incl. ill-typed numeric comparisons, undotted EXISTS, " +
 			"buffered capacities 1-3 and unbuffered subscriptions, random subscribe/unsubscribe/unsubscribeAll/publish/read/stat interleavings, slow and fast readers); " +
 			"query (AST rendered to the query language with random spacing, parsed by the real parser, Conditions() compared with the AST, Matches vs model on random event maps incl. " +
 			"non-numeric, signed, zero-padded, overflowing values and numbers); tx index clean (unique txs, typed keys) and hostile (separator in values/keys, duplicate txs, " +
-			"non-canonical numbers, reserved keys, tx.hash/tx.height conditions with the wrong operand type, repeated range bounds); block index likewise. " +
+			"non-canonical numbers, reserved keys, tx.hash/tx.height conditions with the wrong operand type, repeated range bounds); block index likewise; indexer service (blocks of 0-3 txs committed through the event bus, incl. blocks whose begin/end events the block index rejects, duplicate txs, followed by Get of every committed tx, searches and Has). " +
 			"Non-trivial = some message delivered, some query matched, or some search returned a hit; distinct by hash of the op list",
 		Assumptions: []string{
 			"float operands, TIME/DATE operands and attribute values whose first digit run contains a '.' are excluded from model and generators (the code goes through ParseFloat/time.Parse there)",
@@ -649,7 +762,7 @@ func main() {
 			"a query's string determines its conditions (the model keeps each subscription's own parsed query where the code shares the first subscriber's object per query string)",
 			"memdb/goleveldb is an ordered map; orderedcode (block index keys) is a prefix-free injective tuple encoding (trusted, modelled as the tuple)",
 			"the tx hash is SHA-256 in the driver and an arbitrary function in the theorems; heights and indices are non-negative",
-			"TxIndex.Index (single tx) and the IndexerService goroutine are not driven: the service's effect is AddBatch(height's txs in index order) + BlockIndexer.Index per header",
+			"svcblock ops drive the real IndexerService (terminateOnError=false) on a real EventBus: header and tx events are published as the consensus state does, a sentinel header swallowed by harness-side wrappers around the two real kv indexers tells when the service has drained; the model's service step is BlockIndexer.Index (a rejected block leaves the block index unchanged) followed by AddBatch in every case. TxIndex.Index (single tx) is not driven",
 		},
 		Extra: func() map[string]interface{} {
 			return map[string]interface{}{"search_mismatch_classes_seen": classHist, "generator_feature_histogram": featHist}
